@@ -61,7 +61,9 @@ func (r *responseStorer) StoreResponse(
 	removeHopByHopHeaders(resp)
 
 	// RFC 9110 §5.3: several Vary field lines form one list.
-	vary := strings.Join(resp.Header.Values("Vary"), ", ")
+	// (Bytes the JSON index cannot hold are escaped, or the reference read back
+	// would never equal the one computed here and be listed again and again.)
+	vary := escapeObsText(strings.Join(resp.Header.Values("Vary"), ", "))
 	varyResolved := maps.Collect(
 		r.vhn.NormalizeVaryHeader(vary, req.Header),
 	)
